@@ -93,6 +93,18 @@ func (w *World) finalProbes(snaps map[int]*Snap) {
 		if len(g) < 2 {
 			continue
 		}
+		// the comparison is meaningful only while the ledgers stand still
+		moved := false
+		for _, idx := range g {
+			s2 := w.snapshot(w.Nodes[idx])
+			if s2 == nil || snapDigest(s2) != snapDigest(snaps[idx]) || len(s2.Parked) > 0 {
+				moved = true
+			}
+		}
+		if moved {
+			w.probe("c06-cross-node-not-judged-ledger-moving")
+			continue
+		}
 		w.probe("c06-cross-node-groups")
 		for _, a := range w.WAddr {
 			var first string
@@ -105,6 +117,9 @@ func (w *World) finalProbes(snaps map[int]*Snap) {
 				if k == 0 {
 					first = v
 				} else if v != first {
+					if s2 := w.snapshot(w.Nodes[idx]); s2 == nil || snapDigest(s2) != snapDigest(snaps[idx]) {
+						continue
+					}
 					w.violate("C06", "cross-node", "nodes-with-equal-ledgers-report-different-balances", idx, "address %s: %s vs %s", a[:8], first, v)
 				}
 			}
